@@ -10,9 +10,10 @@ from .visualisation.dimensionality_reduction import DimensionalityReducer
 def get_individual_id(individual: Individual) -> str:
     """
     Tree structure in `treelib` requires identifiers for nodes. This function returns
-    a string representation of the individual's genome, which usually is unique for each individual.
+    a string representation of the individual's genome, which is unique for each distinct genome
+    (str(ndarray) rounds to 8 significant digits and would merge nearly identical genomes).
     """
-    return str(individual.genome)
+    return str(np.asarray(individual.genome).tolist())
 
 
 class NearestBetterClustering:
